@@ -122,8 +122,9 @@ Record cyl_row := { cy_r : F; cy_c : F; cy_s : F; cy_z : F; cy_d : F; cy_h : F; 
 Definition cyl_scaled (r : cyl_row) : F * F * F :=          (* (z0, r, z) made dimensionless *)
   let r0 := cy_d r / two in let z0 := cy_h r / two in (z0 / r0, cy_r r / r0, cy_z r / r0).
 
+(* mask_between_bases is decided on the UNSCALED z and height (commit b977b89), mask_inside_hull on r / r0 *)
 Definition cyl_inside0 (r : cyl_row) : bool :=
-  let '(z0, rr, z) := cyl_scaled r in (fabs z <=? z0) && (rr <=? f1).
+  let '(_, rr, _) := cyl_scaled r in (fabs (cy_z r) <=? cy_h r / two) && (rr <=? f1).
 
 Definition cyl_on_edge (r : cyl_row) : bool :=
   let '(z0, rr, z) := cyl_scaled r in
